@@ -11,6 +11,7 @@ import (
 	"encoding/json"
 	"errors"
 	"fmt"
+	pf "github.com/notaryproject/notation-plugin-framework-go/plugin"
 	"os"
 	"path/filepath"
 	"reflect"
@@ -147,13 +148,20 @@ func (r *recRepo) PushSignature(ctx context.Context, mediaType string, blob []by
 
 // recording signer
 type recSigner struct {
-	inner notation.Signer
-	descs []ocispec.Descriptor
+	inner  notation.Signer
+	noTime bool
+	descs  []ocispec.Descriptor
 }
 
 func (s *recSigner) Sign(ctx context.Context, desc ocispec.Descriptor, opts notation.SignerSignOptions) ([]byte, *signature.SignerInfo, error) {
 	s.descs = append(s.descs, copyDesc(desc))
-	return s.inner.Sign(ctx, desc, opts)
+	sig, si, err := s.inner.Sign(ctx, desc, opts)
+	if err == nil && s.noTime && si != nil {
+		c := *si
+		c.SignedAttributes.SigningTime = time.Time{} // a signer that states no signing time
+		si = &c
+	}
+	return sig, si, err
 }
 
 // a signer that supplies signature manifest annotations of its own (as signer.PluginSigner does for plugins that
@@ -306,7 +314,15 @@ func runNotationSign() int {
 		}
 		inner, err := signer.NewGenericSigner(chain.LeafKey(), chain.Certs)
 		must(err)
-		sg := &recSigner{inner: inner}
+		// the signer proper: the local signer, or (a third of the cases) a plugin-backed signer that has a signer-level plugin
+		// configuration of its own, next to the per-call configuration of the options
+		sg := &recSigner{inner: inner, noTime: in.Art.SignerAnn == "noTime"}
+		if mix(*flagSeed, c.ID, "psigner")%3 == 1 {
+			p := &signPlugin{name: "scripted", chain: chain, caps: []pf.Capability{pf.CapabilitySignatureGenerator}}
+			ps, perr := signer.NewPluginSigner(p, "key-1", map[string]string{"signer-level": "cfg", "k": "signer-level value"})
+			must(perr)
+			sg.inner = ps
+		}
 		var theSigner notation.Signer = sg
 		switch in.Art.SignerAnn {
 		case "unrelated":
